@@ -36,6 +36,11 @@ def plans_core(prop, tier, seed):
     plans.append(dict(name="exhFork", consts=base_consts(NR=3, Writer0=[1, 2, 1], MaxE=5 if q else 6, MaxOps=6 if q else 7,
                                                         ForkOn={2, 3}),
                       max_scripts=25000 if q else 300000))
+    # replicas read back from the store by each loader (from entries, a JSON snapshot, an entry hash, a manifest)
+    plans.append(dict(name="exhLoad", consts=base_consts(NR=3, Writer0=[1, 2, 1], MaxE=4 if q else 5, MaxOps=5 if q else 6,
+                                                        Fn="HASH" if seed % 2 else "LWW", ForkOn={3},
+                                                        LoadKinds={"entry", "json", "hash", "mh"}),
+                      max_scripts=25000 if q else 300000))
     if not q:
         plans.append(dict(name="exhLWW4", consts=base_consts(NR=4, Writer0=[1, 2, 3, 1], Lid=["X"] * 4,
                                                              Denied=[set()] * 4, MaxE=4, MaxOps=5)))
@@ -49,6 +54,13 @@ def plans_c04(prop, tier, seed):
         dict(name="exhPC", consts=base_consts(NR=2, Writer0=[1, 2], Lid=["X", "X"], Denied=[set(), set()],
                                               MaxE=5 if q else 6, MaxOps=6 if q else 8, PCs={1, 2, 3, 4, 8})),
         dict(name="exhSI", consts=base_consts(MaxE=4, MaxOps=5 if q else 6, PCs={1, 2}, Writers={1, 2, 3})),
+        # appends to logs read back from the store (their clock starts behind their heads), under every comparator
+        dict(name="exhLoadFWW", consts=base_consts(NR=3, Writer0=[1, 2, 3], MaxE=5, MaxOps=6 if q else 7, Fn="FWW", ForkOn={3},
+                                                   LoadKinds={"entry", "mh"}),
+             max_scripts=25000 if q else 300000),
+        dict(name="exhLoadHASH", consts=base_consts(NR=3, Writer0=[1, 2, 3], MaxE=5, MaxOps=6, Fn="HASH", HashPerm="rev", ForkOn={3},
+                                                    LoadKinds={"json", "hash"}),
+             max_scripts=25000 if q else 300000),
         dict(name="sim", consts=base_consts(NR=3, MaxE=40, MaxOps=60, PCs={1, 2, 3, 5, 8, 16, 33, 64},
                                             Writers={1, 2, 3}),
              simulate=(6 if q else 60, 60), mode="all"),
@@ -61,6 +73,9 @@ def plans_c16(prop, tier, seed):
         dict(name="exhJB", consts=base_consts(NR=2 if q else 3, Writer0=[1, 2] if q else [1, 2, 1],
                                               Lid=["X"] * (2 if q else 3), Denied=[set()] * (2 if q else 3),
                                               MaxE=4 if q else 5, MaxOps=6, Sizes={0, 1, 2, 3, 4, 5, 6, 7})),
+        # a third, empty replica receives a forked source with unbalanced branches in one bounded join
+        dict(name="exhJB3", consts=base_consts(NR=3, Writer0=[1, 2, 3], MaxE=4, MaxOps=6, Sizes={1, 2, 3}),
+             max_scripts=60000 if q else None),
         dict(name="exhJBhash", consts=base_consts(NR=2, Writer0=[1, 1], Lid=["X"] * 2, Denied=[set()] * 2, Fn="HASH",
                                                   MaxE=4 if q else 5, MaxOps=5 if q else 7, Sizes={0, 1, 2, 3, 6})),
     ]
@@ -112,6 +127,12 @@ def plans_c17(prop, tier, seed):
              consts=base_consts(NR=2, Writer0=[1, 2], Lid=["X"] * 2, Denied=[set()] * 2, MaxE=3, MaxOps=6 if q else 7,
                                 PCs={1, 2}, PubOn={1}, WriteFaults=True),
              max_scripts=4000 if q else 40000),
+        # two replicas that share a writer identity, one of them read-only (its controller refuses that writer), identical
+        # payloads: the refused append of the read-only replica produces the very block the other one appended earlier
+        dict(name="twin", audit="c17", mode="all", payload="const",
+             consts=base_consts(NR=2, Writer0=[1, 1], Lid=["X"] * 2, Denied=[set(), {1}], MaxE=4, MaxOps=5 if q else 6,
+                                PCs={1}, PubOn={1}),
+             max_scripts=4000 if q else 40000),
         dict(name="crash3", audit="c17", mode="all",
              consts=base_consts(MaxE=4 if q else 5, MaxOps=6 if q else 8, PCs={1, 4}, PubOn={1}, Fn="HASH"),
              max_scripts=1500 if q else 30000),
@@ -127,6 +148,11 @@ def plans_c18(prop, tier, seed):
         dict(name="lk1", audit="c18", codec="cbor+lk1",
              consts=base_consts(NR=2, Writer0=[1, 2], Lid=["X"] * 2, Denied=[set()] * 2, MaxE=4 if q else 5,
                                 MaxOps=5 if q else 7, PCs={1, 2, 4})),
+        # a log read back from the store keeps sealing what it appends
+        dict(name="lk1load", audit="c18", codec="cbor+lk1",
+             consts=base_consts(NR=2, Writer0=[1, 2], Lid=["X"] * 2, Denied=[set()] * 2, MaxE=4, MaxOps=5 if q else 6, PCs={1, 2},
+                                ForkOn={1, 2}, LoadKinds={"entry", "json", "hash", "mh"}),
+             max_scripts=20000 if q else 200000),
         dict(name="lk2", audit="c18", codec="cbor+lk2", mode="all",
              consts=base_consts(NR=3, MaxE=12, MaxOps=24, PCs={1, 2, 4, 8}),
              simulate=(6 if q else 60, 24)),
@@ -174,9 +200,40 @@ def run_c18(prop, tier, seed, report, scratch):
     report.coverage["direct_entry_shapes"] = shape_part
 
 
+def run_c02(prop, tier, seed, report, scratch):
+    """C02: the family-L pipeline, plus an Apalache inductiveness check of the sets-only abstraction CoreInd.tla
+    (IndInv holds initially and is preserved by every step from EVERY state satisfying it: all DAGs over the
+    entry universe, not only the histories a bounded TLC run reaches).  The Apalache stage never produces a
+    verdict about the code (the binding is the family-L replay); its outcome is recorded in the evidence."""
+    run_l(plans_core)(prop, tier, seed, report, scratch)
+    import shutil
+    import subprocess
+    from vlib import SPEC, run
+    d = os.path.join(scratch, "apalache")
+    os.makedirs(d, exist_ok=True)
+    shutil.copy(os.path.join(SPEC, "CoreInd.tla"), d)
+    n, nr = (5, 2) if tier == "quick" else (7, 3)
+    open(os.path.join(d, "ci.cfg"), "w").write("CONSTANTS\n N = %d\n NR = %d\nINIT IndInit\nNEXT Next\nINVARIANT IndInv\n" % (n, nr))
+    out = {"universe_entries": n, "replicas": nr}
+    try:
+        p1 = run(["apalache-mc", "check", "--config=ci.cfg", "--init=IndInit", "--inv=IndInv", "--length=1", "--out-dir=" + d + "/out",
+                  "CoreInd.tla"], cwd=d, timeout=600 if tier == "quick" else 2400)
+        p0 = run(["apalache-mc", "check", "--config=ci.cfg", "--init=Init", "--inv=IndInv", "--length=0", "--out-dir=" + d + "/out",
+                  "CoreInd.tla"], cwd=d, timeout=300)
+        out["inductive_step"] = "The outcome is: NoError" in p1.stdout
+        out["base_case"] = "The outcome is: NoError" in p0.stdout
+        log("  CoreInd.tla (Apalache, N=%d, NR=%d): base case %s, inductive step %s" % (n, nr, out["base_case"], out["inductive_step"]))
+        if not (out["inductive_step"] and out["base_case"]):
+            report.notes.append("Apalache did not establish IndInv for CoreInd.tla: " + (p1.stdout + p0.stdout)[-600:])
+    except (subprocess.TimeoutExpired, FileNotFoundError, OSError) as e:
+        out["error"] = str(e)[:200]
+        report.notes.append("Apalache stage skipped: %s" % out["error"])
+    report.coverage["apalache_inductive_invariant"] = out
+
+
 CHECKS = {
     "C01": dict(level="model_checking", run=run_l(plans_core)),
-    "C02": dict(level="model_checking", run=run_l(plans_core)),
+    "C02": dict(level="model_checking", run=run_c02),
     "C03": dict(level="model_checking", run=run_l(plans_core)),
     "C05": dict(level="model_checking", run=run_l(plans_core)),
     "C04": dict(level="model_checking", run=run_l(plans_c04)),
